@@ -113,6 +113,15 @@ type c17Conn struct {
 	closed        chan struct{}
 	once          sync.Once
 	block         bool // after the chunks, block until closed instead of returning EOF
+	gate          func() // runs before the first Read and before RemoteAddr answer (Proxy asks for the client's
+	// address after it has dialled the covert and before it writes the PROXY header)
+	gateOnce sync.Once
+}
+
+func (c *c17Conn) waitGate() {
+	if c.gate != nil {
+		c.gateOnce.Do(c.gate)
+	}
 }
 
 func newC17Conn(local, remote net.Addr) *c17Conn {
@@ -120,6 +129,7 @@ func newC17Conn(local, remote net.Addr) *c17Conn {
 }
 
 func (c *c17Conn) Read(p []byte) (int, error) {
+	c.waitGate()
 	c.mu.Lock()
 	if len(c.chunks) > 0 {
 		n := copy(p, c.chunks[0])
@@ -148,7 +158,7 @@ func (c *c17Conn) Close() error {
 	return c.closeErr
 }
 func (c *c17Conn) LocalAddr() net.Addr  { return c.local }
-func (c *c17Conn) RemoteAddr() net.Addr { return c.remote }
+func (c *c17Conn) RemoteAddr() net.Addr { c.waitGate(); return c.remote }
 func (c *c17Conn) SetDeadline(t time.Time) error {
 	c.mu.Lock()
 	defer c.mu.Unlock()
@@ -280,7 +290,15 @@ func c17Clip(text, needle string) string {
 	return "…" + strings.ReplaceAll(text[lo:hi], "\n", " ⏎ ") + "…"
 }
 
-// c17ProxyAll drives the real Proxy: scripted client connection, covert on loopback.
+// c17Flags: the registration flags that change what Proxy does with the covert connection
+var c17Flags = []string{"header-off", "header-on", "no-flags"}
+
+// c17ProxyAll drives the real Proxy: scripted client connection, covert on loopback.  Dimensions: client
+// address family; registration flags (PROXY header on / off / no flags message); where the fault is: every
+// error shape at the client connection's Read, Write and Close, and what a real covert can do to the
+// station's socket — refuse the dial, reset the connection before the station's first write (with the header
+// flag that is the write of the PROXY header, otherwise the first relayed write), close it at once, answer
+// and close.
 func c17ProxyAll(out *vlib.Out, glob *c17Buf) {
 	st := vc17.Station()
 	for _, cl := range vc17.Clients() {
@@ -294,74 +312,161 @@ func c17ProxyAll(out *vlib.Out, glob *c17Buf) {
 				injs = append(injs, inj{"client." + strings.ToUpper(op[:1]) + op[1:], n})
 			}
 		}
-		injs = append(injs, inj{"covert.Dial", &vc17.Node{Kind: "E", N: 111}}, inj{"none", &vc17.Node{Kind: "eof"}})
-		for k, in := range injs {
-			header := k%2 == 0
-			ln, err := net.Listen("tcp", "127.0.0.1:0")
-			if err != nil {
-				panic(err)
+		none := &vc17.Node{Kind: "eof"}
+		injs = append(injs, inj{"covert.Dial", &vc17.Node{Kind: "E", N: 111}}, inj{"none", none},
+			inj{"covert.Reset", none}, inj{"covert.CloseAtOnce", none}, inj{"covert.ReplyAndClose", none})
+		for _, in := range injs {
+			for _, flags := range c17Flags {
+				c17ProxyOne(out, glob, cl, in.pos, in.n, flags)
 			}
-			addr := ln.Addr().String()
-			srvDone := make(chan struct{})
-			if in.pos == "covert.Dial" {
-				ln.Close()
-				close(srvDone)
-			} else {
-				go func() {
-					defer close(srvDone)
-					defer ln.Close()
-					_ = ln.(*net.TCPListener).SetDeadline(time.Now().Add(3 * time.Second))
-					c, err := ln.Accept()
-					if err != nil {
-						return
-					}
-					defer c.Close()
-					_ = c.SetDeadline(time.Now().Add(10 * time.Second))
+		}
+	}
+}
+
+func c17ProxyOne(out *vlib.Out, glob *c17Buf, cl vc17.Client, pos string, n *vc17.Node, flags string) {
+	st := vc17.Station()
+	for attempt := 0; attempt < 6; attempt++ {
+		ln, err := net.Listen("tcp", "127.0.0.1:0")
+		if err != nil {
+			panic(err)
+		}
+		addr := ln.Addr().String()
+		srvDone := make(chan struct{})
+		faultDone := make(chan struct{}) // closed when the covert has done what the position asks for
+		switch pos {
+		case "covert.Dial":
+			ln.Close()
+			close(srvDone)
+			close(faultDone)
+		default:
+			go func() {
+				defer close(srvDone)
+				defer ln.Close()
+				_ = ln.(*net.TCPListener).SetDeadline(time.Now().Add(3 * time.Second))
+				c, err := ln.Accept()
+				if err != nil {
+					close(faultDone)
+					return
+				}
+				defer c.Close()
+				switch pos {
+				case "covert.Reset":
+					_ = c.(*net.TCPConn).SetLinger(0) // close sends RST
+					c.Close()
+					close(faultDone)
+					return
+				case "covert.CloseAtOnce":
+					c.Close()
+					close(faultDone)
+					return
+				case "covert.ReplyAndClose":
 					_, _ = c.Write([]byte("reply from the covert"))
-					_, _ = io.Copy(io.Discard, c)
-				}()
+					c.Close()
+					close(faultDone)
+					return
+				}
+				close(faultDone)
+				_ = c.SetDeadline(time.Now().Add(10 * time.Second))
+				_, _ = c.Write([]byte("reply from the covert"))
+				_, _ = io.Copy(io.Discard, c)
+			}()
+		}
+		client := newC17Conn(st.TCP, cl.Addr.TCP)
+		client.chunks = [][]byte{[]byte("hello from the client")}
+		client.block = true
+		grace := time.Duration(attempt*attempt) * 2 * time.Millisecond
+		if strings.HasPrefix(pos, "covert.") && pos != "covert.Dial" {
+			// the station's first write on the covert connection comes after the covert has acted
+			client.gate = func() {
+				select {
+				case <-faultDone:
+				case <-time.After(5 * time.Second):
+				}
+				time.Sleep(200*time.Microsecond + grace)
 			}
-			client := newC17Conn(st.TCP, cl.Addr.TCP)
-			client.chunks = [][]byte{[]byte("hello from the client")}
-			client.block = true
-			e := in.n.Go()
-			switch in.pos {
-			case "client.Read":
-				client.readErr = e
-			case "client.Write":
-				client.writeErr = e
-			case "client.Close":
-				client.closeErr = e
-				client.block = false
-			case "none":
-				client.block = false
-			}
-			var lb c17Buf
-			logger := log.New(&lb, "[CONN] _ -> 192.0.2.77 ", golog.Ldate|golog.Lmicroseconds)
-			glob.Reset()
-			reg := c05RegLike(addr, header)
-			base := runtime.NumGoroutine()
-			done := make(chan struct{})
-			go func() { defer close(done); Proxy(reg, client, logger) }()
-			select {
-			case <-done:
-			case <-time.After(20 * time.Second):
-				client.Close()
-				<-done
-			}
-			<-srvDone
-			c17Settle(base)
-			logged := lb.String() + glob.String()
-			out.Checked()
-			out.Count("proxy:" + in.pos)
-			if hit := vc17.Scan(logged, cl.Needles); hit != "" {
-				c17Fail(out, "C17:relay-log-has-client-address",
-					fmt.Sprintf("Proxy, %s client, error %q injected at %s (PROXY header %v): the log / tunnel summary contains %s: %s",
-						cl.Name, e.Error(), in.pos, header, hit, c17Clip(logged, hit)),
-					fmt.Sprintf("proxy|%s|%s|%s|%s", cl.Name, in.pos, vlib.B(header), in.n.Enc()))
-			}
-			if !strings.Contains(logged, "proxy closed ") {
-				c17Fail(out, "C17:no-tunnel-summary", "Proxy printed no tunnel summary", fmt.Sprintf("proxy|%s|%s", cl.Name, in.pos))
+		}
+		e := n.Go()
+		switch pos {
+		case "client.Read":
+			client.readErr = e
+		case "client.Write":
+			client.writeErr = e
+		case "client.Close":
+			client.closeErr = e
+			client.block = false
+		case "none", "covert.CloseAtOnce", "covert.ReplyAndClose", "covert.Reset":
+			client.block = false
+		}
+		var lb c17Buf
+		logger := log.New(&lb, "[CONN] _ -> 192.0.2.77 ", golog.Ldate|golog.Lmicroseconds)
+		glob.Reset()
+		reg := c05RegLike(addr, flags == "header-on")
+		if flags == "no-flags" {
+			reg.Flags = nil
+		}
+		base := runtime.NumGoroutine()
+		done := make(chan struct{})
+		go func() { defer close(done); Proxy(reg, client, logger) }()
+		select {
+		case <-done:
+		case <-time.After(20 * time.Second):
+			client.Close()
+			<-done
+		}
+		<-srvDone
+		c17Settle(base)
+		logged := lb.String() + glob.String()
+		out.Checked()
+		if hit := vc17.Scan(logged, cl.Needles); hit != "" {
+			c17Fail(out, "C17:relay-log-has-client-address",
+				fmt.Sprintf("Proxy, %s client, flags %s, error %q injected at %s: the log / tunnel summary contains %s: %s",
+					cl.Name, flags, e.Error(), pos, hit, c17Clip(logged, hit)),
+				fmt.Sprintf("proxy|%s|%s|%s|%s", cl.Name, pos, flags, n.Enc()))
+		}
+		headerFailed := strings.Contains(logged, "failed to send PROXY header")
+		if !strings.Contains(logged, "proxy closed ") && !headerFailed {
+			c17Fail(out, "C17:no-tunnel-summary", "Proxy printed neither a tunnel summary nor a PROXY header failure: "+logged, fmt.Sprintf("proxy|%s|%s|%s", cl.Name, pos, flags))
+		}
+		if pos == "covert.Reset" && flags == "header-on" && !headerFailed {
+			// the header went out before the reset arrived: again, with more grace
+			out.Count("proxy:covert.Reset:header-written-before-reset")
+			continue
+		}
+		out.Count("proxy:" + pos + ":" + flags)
+		if headerFailed {
+			out.Count("proxy:header-write-failed")
+		}
+		return
+	}
+	out.Note("C17 lib: the covert's reset never arrived before the PROXY header was written; the header write fault was exercised on writePROXYHeader directly only")
+}
+
+// c17HeaderWrite: writePROXYHeader with a scripted covert connection whose first write fails in every shape,
+// for every textual form a connection's RemoteAddr can take.  Proxy logs the returned error as it is (call
+// site `failed to send PROXY header: %s` of the regenerated table): the error must not name the client.
+func c17HeaderWrite(out *vlib.Out) {
+	st, cov := vc17.Station(), vc17.Covert()
+	local := &vc17.Addr{Role: 's', TCP: &net.TCPAddr{IP: st.TCP.IP, Port: 50123}}
+	for _, cl := range vc17.Clients() {
+		forms := []string{cl.Addr.TCP.String(), (&net.UDPAddr{IP: cl.Addr.TCP.IP, Port: cl.Addr.TCP.Port, Zone: cl.Addr.TCP.Zone}).String()}
+		for _, form := range forms {
+			shapes := append(vc17.Shapes("write", local, cov), &vc17.Node{Kind: "X", Txt: "short write"})
+			for _, n := range shapes {
+				covert := newC17Conn(local.TCP, cov.TCP)
+				covert.writeErr = n.Go()
+				err := writePROXYHeader(covert, form)
+				out.Checked()
+				out.Count("header-write")
+				if err == nil {
+					c17Fail(out, "C17:harness-header-write", "the injected write fault was not reported by writePROXYHeader", "header|"+cl.Name)
+					continue
+				}
+				if hit := vc17.Scan(err.Error(), cl.Needles); hit != "" {
+					c17Fail(out, "C17:proxy-header-error-names-client",
+						fmt.Sprintf("writePROXYHeader(covert, %q) with the covert's write failing with %q returns %q: Proxy logs it at error level and it contains %s",
+							form, n.Go().Error(), err.Error(), hit),
+						fmt.Sprintf("header|%s|%s", cl.Name, n.Enc()))
+				}
 			}
 		}
 	}
@@ -419,6 +524,10 @@ func c17Ingest(out *vlib.Out) {
 			if err := rm.AddTransport(tt, &mockTransport{}); err != nil {
 				panic(err)
 			}
+			// direct: the registration goes to the registry's exported entry points instead of ingestRegistration,
+			// with a transport the registry does not know (a registration built under another configuration):
+			// tracking and registering fail, AddRegistration logs the failure
+			direct := false
 			scenario := func(name string, secret byte, covert string, src pb.RegistrationSource, transport pb.TransportType, isLive bool, times int) {
 				live.live = isLive
 				c2s, _ := mockReceiveFromDetector()
@@ -440,7 +549,15 @@ func c17Ingest(out *vlib.Out) {
 					}
 					for _, reg := range regs {
 						if reg != nil {
-							rm.ingestRegistration(reg)
+							if direct {
+								reg.Transport = pb.TransportType(77)
+								if err := rm.TrackRegistration(reg); err != nil {
+									rm.Logger.Errorln("error tracking registration: ", err) // as ingestRegistration does
+								}
+								rm.AddRegistration(reg)
+							} else {
+								rm.ingestRegistration(reg)
+							}
 							// the digest, wherever it is printed
 							d := reg.String()
 							out.Checked()
@@ -461,6 +578,12 @@ func c17Ingest(out *vlib.Out) {
 			scenario("live-phantom", 5, "93.184.216.34:443", pb.RegistrationSource_Detector, 0, true, 1)
 			scenario("transport-not-enabled", 6, "93.184.216.34:443", pb.RegistrationSource_API, pb.TransportType_Obfs4, false, 1)
 			scenario("bidirectional-api", 7, "93.184.216.34:443", pb.RegistrationSource_BidirectionalAPI, 0, false, 1)
+			direct = true
+			scenario("transport-unknown-to-registry", 8, "93.184.216.34:443", pb.RegistrationSource_API, 0, false, 2)
+			direct = false
+			if level == log.ErrorLevel && !strings.Contains(lb.String(), "Error registering decoy") {
+				c17Fail(out, "C17:harness-ingest-incomplete", "the registry accepted a registration with an unknown transport: "+lb.String(), "ingest|"+cl.Name)
+			}
 			// expire everything: backdate the timeout records and sweep
 			for _, to := range rm.registeredDecoys.decoysTimeouts {
 				to.registrationTime = time.Now().Add(-48 * time.Hour)
@@ -541,6 +664,14 @@ func TestVerifC17Lib(t *testing.T) {
 		for _, n := range vc17.Opaque(cl.Addr) {
 			c17GenCase(out, n, all)
 		}
+		// what a connecting transport reports when it cannot reach the client: dial errors as they are,
+		// wrapped, and flattened into text (differential for the flattened ones: the sanitiser has nothing to
+		// strip and returns them with the address, `flattened_structured_stays_tainted`)
+		for _, n := range c17ConnectErrors(cl) {
+			if n.Kind != "ctx-deadline" {
+				c17GenCase(out, n, all)
+			}
+		}
 	}
 	r := vlib.NewRand("C17lib")
 	for i, n := 0, vlib.Budget(4000, 150000); i < n; i++ {
@@ -549,10 +680,12 @@ func TestVerifC17Lib(t *testing.T) {
 	// (B)
 	c17RelayAll(out, &glob)
 	c17ProxyAll(out, &glob)
+	c17HeaderWrite(out)
 	// (C)
 	c17Ingest(out)
 	// (D) connecting transports: GeoIP failure, relay over a UDP-addressed connection
 	c17Connecting(t, out, &glob)
+	c17ConnectFails(out, &glob)
 	// (E) the statistics printers, after all of the above has been counted
 	c17Statistics(out, all[:len(clients)])
 }
@@ -566,6 +699,15 @@ type c17CT struct {
 }
 
 func (t *c17CT) Connect(ctx context.Context, r transports.Registration) (net.Conn, error) { return t.mk() }
+
+// c17SigStats tells the harness how a connection attempt of a connecting transport ended
+type c17SigStats struct {
+	c17NoStats
+	ended chan string
+}
+
+func (s c17SigStats) AddCreatedToTimeoutConnecting(uint, string, string) { s.ended <- "timeout" }
+func (s c17SigStats) AddOtherFailConnecting(uint, string, string)        { s.ended <- "other" }
 
 type c17NoStats struct{}
 
@@ -671,6 +813,126 @@ func c17Connecting(t *testing.T, out *vlib.Out, glob *c17Buf) {
 	}
 }
 
+// c17ConnectErrors: what a connecting transport's Connect can return when the station cannot reach the
+// client: the context's deadline, the dial error of the network stack as it is (a *net.OpError that names both
+// endpoints) or wrapped, the same flattened into text the way pkg/transports/connecting/dtls reports it
+// ("error connecting to dtls client: %v", several joined with "%v, %v"), errors that name the client in opaque
+// text, bare causes and the transport's own sentinels.
+func c17ConnectErrors(cl vc17.Client) []*vc17.Node {
+	st := vc17.Station()
+	from := &vc17.Addr{Role: 's', TCP: &net.TCPAddr{IP: net.IPv4zero, Port: 41245}}
+	if cl.Addr.TCP.IP.To4() == nil {
+		from = &vc17.Addr{Role: 's', TCP: &net.TCPAddr{IP: net.IPv6unspecified, Port: 41245}}
+	}
+	dial := func(call string, errno syscall.Errno) *vc17.Node {
+		return &vc17.Node{Kind: "O", Txt: "dial", Net: "udp", Src: from, Dst: cl.Addr, Inner: &vc17.Node{Kind: "S", Txt: call, Inner: &vc17.Node{Kind: "E", N: int(errno)}}}
+	}
+	var out []*vc17.Node
+	out = append(out, &vc17.Node{Kind: "ctx-deadline"})
+	for _, n := range []*vc17.Node{dial("connect", syscall.ENETUNREACH), dial("connect", syscall.EHOSTUNREACH), dial("bind", syscall.EADDRINUSE),
+		dial("connect", syscall.EPERM), dial("connect", syscall.ECONNREFUSED),
+		{Kind: "O", Txt: "dial", Net: "udp", Src: from, Dst: cl.Addr, Inner: &vc17.Node{Kind: "dl"}},
+		{Kind: "O", Txt: "read", Net: "udp", Src: st, Dst: cl.Addr, Inner: &vc17.Node{Kind: "S", Txt: "recvfrom", Inner: &vc17.Node{Kind: "E", N: int(syscall.ECONNREFUSED)}}}} {
+		out = append(out, n, &vc17.Node{Kind: "W", Txt: "error connecting to dtls client", Inner: n},
+			&vc17.Node{Kind: "F", Txt: "error connecting to dtls client: ", Inner: n},
+			&vc17.Node{Kind: "F", Txt: "error adding DNAT entry: x, error connecting to dtls client: ", Post: ", error accepting dtls connection from secret: context canceled", Inner: n})
+	}
+	out = append(out, vc17.Opaque(cl.Addr)...)
+	out = append(out, &vc17.Node{Kind: "E", N: int(syscall.ENETUNREACH)}, &vc17.Node{Kind: "X", Txt: "transport params is not *pb.DTLSTransportParams"},
+		&vc17.Node{Kind: "X", Txt: "handshake failed: bad psk"}, &vc17.Node{Kind: "N", Txt: "handshake timed out", To: true}, &vc17.Node{Kind: "eof"})
+	return out
+}
+
+// c17ConnectFails: registrations for a connecting transport whose Connect fails, through ingestRegistration
+// (which hands them to handleConnectingTpReg) and through handleConnectingTpReg directly.
+func c17ConnectFails(out *vlib.Out, glob *c17Buf) {
+	for _, cl := range vc17.Clients() {
+		for k, n := range c17ConnectErrors(cl) {
+			e := n.Go()
+			stats := c17SigStats{ended: make(chan string, 4)}
+			ct := &c17CT{mk: func() (net.Conn, error) { return nil, e }}
+			rm := NewRegistrationManager(&RegConfig{ConnectingStats: stats, EnableIPv4: true, EnableIPv6: true, CovertBlocklistSubnets: []string{}, PhantomBlocklist: []string{}})
+			if rm == nil {
+				panic("no registration manager")
+			}
+			rm.GeoIP = &geoip.EmptyDatabase{}
+			rm.registeredDecoys.registerForDetector = func(*DecoyRegistration) {}
+			rm.registeredDecoys.updateInDetector = func(*DecoyRegistration) {}
+			rm.LivenessTester = &c17Live{}
+			if err := rm.AddTransport(pb.TransportType_DTLS, ct); err != nil {
+				panic(err)
+			}
+			var lb c17Buf
+			rm.Logger = log.New(&lb, "[REG] ", golog.Ldate|golog.Lmicroseconds)
+			glob.Reset()
+			base := runtime.NumGoroutine()
+			via := "direct"
+			started := 1
+			if k%2 == 0 {
+				// through the ingest path: a registration message that names the client as registrant
+				via = "ingest"
+				c2s, _ := mockReceiveFromDetector()
+				tt := pb.TransportType_DTLS
+				c2s.Transport = &tt
+				c2s.CovertAddress = proto.String("93.184.216.34:443")
+				c2s.V4Support = proto.Bool(true)
+				c2s.V6Support = proto.Bool(cl.Addr.TCP.IP.To4() == nil)
+				src := pb.RegistrationSource_API
+				w := &pb.C2SWrapper{SharedSecret: bytes.Repeat([]byte{byte(0x40 + k)}, 32), RegistrationPayload: c2s, RegistrationSource: &src,
+					RegistrationAddress: []byte(cl.Addr.TCP.IP.To16()), DecoyAddress: []byte(net.ParseIP("198.18.0.9").To16())}
+				started = 0
+				// phantom selection fails for some shared secrets (no IPv6 phantom for the generation): take the
+				// next secret then — what the failed attempt logged is scanned all the same
+				for try := 0; try < 16 && started == 0; try++ {
+					w.SharedSecret = bytes.Repeat([]byte{byte(0x40 + k + 64*try)}, 32)
+					msg, err := proto.Marshal(w)
+					if err != nil {
+						panic(err)
+					}
+					regs, err := rm.parseRegMessage(msg)
+					if err != nil {
+						rm.Logger.Errorf("Encountered err when creating Reg: %v\n", err) // as startIngestThread does
+					}
+					for _, reg := range regs {
+						if reg != nil {
+							rm.ingestRegistration(reg)
+							started++
+						}
+					}
+				}
+			} else {
+				reg := c05RegLike("93.184.216.34:443", false)
+				reg.Transport = pb.TransportType_DTLS
+				var tr Transport = ct
+				reg.TransportPtr = &tr
+				reg.registrationAddr = cl.Addr.TCP.IP
+				handleConnectingTpReg(rm, reg, rm.Logger)
+			}
+			ended := 0
+			for i := 0; i < started; i++ {
+				select {
+				case <-stats.ended:
+					ended++
+				case <-time.After(10 * time.Second):
+				}
+			}
+			c17Settle(base)
+			logged := lb.String() + glob.String()
+			out.Checked()
+			out.Count("connecting:connect-fails:" + via + ":" + n.Kind)
+			if started == 0 || ended != started {
+				c17Fail(out, "C17:harness-connecting-incomplete", fmt.Sprintf("%s client, Connect failing with %q (%s): %d connection attempts started, %d ended; log %q",
+					cl.Name, e.Error(), via, started, ended, logged), "connecting|"+cl.Name+"|connect-fails|"+n.Enc())
+			}
+			if hit := vc17.Scan(logged, cl.Needles); hit != "" {
+				c17Fail(out, "C17:connect-failure-log-has-client-address",
+					fmt.Sprintf("connecting transport, %s client, Connect fails with %q (%s): the log contains %s: %s", cl.Name, e.Error(), via, hit, c17Clip(logged, hit)),
+					"connecting|"+cl.Name+"|connect-fails|"+via+"|"+n.Enc())
+			}
+		}
+	}
+}
+
 // ---------------------------------------------------------------------------------------------
 // (E) statistics
 
@@ -727,11 +989,15 @@ func c17LibReplay(t *testing.T, out *vlib.Out, path string, glob *c17Buf) {
 		c17RelayAll(out, glob)
 		c17ProxyAll(out, glob)
 	}
+	if strings.Contains(s, "\nheader|") || strings.Contains(s, "\nproxy|") {
+		c17HeaderWrite(out)
+	}
 	if strings.Contains(s, "\ningest|") {
 		c17Ingest(out)
 	}
 	if strings.Contains(s, "\nconnecting|") {
 		c17Connecting(t, out, glob)
+		c17ConnectFails(out, glob)
 	}
 	if strings.Contains(s, "\nstatistics") {
 		var cn [][]string
